@@ -13,9 +13,13 @@ package simrt
 import (
 	"cmp"
 	"os"
+	"reflect"
 	"runtime"
 	"slices"
 	"strconv"
+	"sync"
+	"sync/atomic"
+	"time"
 	"unsafe"
 )
 
@@ -446,3 +450,78 @@ var SimEpoch = func() int64 {
 	}
 	return 1700000000e9
 }()
+
+// ---- finalizer seam ----
+//
+// runtime.SetFinalizer(obj, f) in the library is redirected here. The real
+// finalizer only moves (obj, f) into a queue; f itself runs later as a task
+// under the scheduler (which drains the queue after every forced collection),
+// never on the runtime's own finalizer goroutine.
+
+type finRec struct {
+	obj any
+	fn  any
+}
+
+var (
+	finMu    sync.Mutex
+	finQueue []finRec
+)
+
+var finSeen atomic.Bool
+var finCell uint64
+
+// FinalizersSeen reports whether the library ever registered a finalizer.
+func FinalizersSeen() bool { return finSeen.Load() }
+
+// SetFinalizer replaces runtime.SetFinalizer.
+func SetFinalizer(obj any, finalizer any) {
+	finSeen.Store(true)
+	if unmanaged || finalizer == nil {
+		runtime.SetFinalizer(obj, finalizer)
+		return
+	}
+	fn := finalizer
+	// "a call to SetFinalizer(x, f) happens before the finalization call f(x)"
+	RaceReleaseMerge(unsafe.Pointer(&finCell))
+	wrapper := reflect.MakeFunc(reflect.FuncOf([]reflect.Type{reflect.TypeOf(obj)}, nil, false), func(args []reflect.Value) []reflect.Value {
+		finMu.Lock()
+		finQueue = append(finQueue, finRec{obj: args[0].Interface(), fn: fn})
+		finMu.Unlock()
+		return nil
+	})
+	runtime.SetFinalizer(obj, wrapper.Interface())
+}
+
+// takeFinalizers returns the finalizer calls that became due.
+func takeFinalizers() []func() {
+	finMu.Lock()
+	q := finQueue
+	finQueue = nil
+	finMu.Unlock()
+	var out []func()
+	for _, r := range q {
+		r := r
+		out = append(out, func() {
+			RaceAcquire(unsafe.Pointer(&finCell))
+			reflect.ValueOf(r.fn).Call([]reflect.Value{reflect.ValueOf(r.obj)})
+		})
+	}
+	return out
+}
+
+type finSentinel struct{ _ [16]byte }
+
+// waitFinalizers lets the runtime's finalizer goroutine process everything
+// the last collection queued (a sentinel's finalizer marks the end of the batch).
+func waitFinalizers() {
+	done := make(chan struct{})
+	s := new(finSentinel)
+	runtime.SetFinalizer(s, func(*finSentinel) { close(done) })
+	s = nil
+	runtime.GC()
+	select {
+	case <-done:
+	case <-time.After(200 * time.Millisecond):
+	}
+}
